@@ -2,4 +2,5 @@
 pub mod gen;
 pub mod msg;
 pub mod ops;
+pub mod text;
 pub mod wire;
